@@ -213,6 +213,9 @@ Definition check (c : case) : bool :=
       let cfg := mkSCfg (option_map cred_fn auth) dudp dial true udp in
       sevs_match (c18_socks cfg s) obs
   | CHttp auth dial reqs h s obs =>
+      (* reqs = what net/http parsed out of s (reported by the harness): the form it reports for every
+         request-target is the one the model derives, with the scheme / host shape that form implies *)
+      forallb c18_form_ok reqs &&
       hevs_match (c18_http (mkHCfg (option_map cred_fn auth) dial) reqs h s) obs
   | CRead buf s sizes obs => reads_match (mkPre buf s) sizes obs
   | CMux l => replay c18_m_init l
